@@ -20,6 +20,19 @@
 //!    node had a live connection on every shard before the first request was sent). `nat=1` puts a port-shifting NAT
 //!    between driver and nodes (a connection aimed at shard s lands on s+1; pools fill slowly or never): the shard
 //!    clause is then judged for a key only if its node had a connection of the owning shard, READY for >= 100 ms.
+//!
+//! Optional words (added for the audit of the Session glue; defaults = the behaviour above):
+//!  * `api=<u|i>`   `u` = `Session::execute_unpaged` (`Session::execute`, session.rs:1775-1816), `i` = `Session::execute_iter`
+//!                  (the pager builds its OWN copy of the `RoutingInfo` literal, pager.rs:949-966): the first EXECUTE frame
+//!                  of the pager is judged by the same oracle.
+//!  * `lwt=<0|1>`   1 = the request is routed as an LWT (`should_route_as_lwt`: serial consistency on the execution profile;
+//!                  the mock does not advertise the LWT-mark extension, so `is_confirmed_lwt` stays false here - it is
+//!                  driven by the `stmt` cases): with SimpleStrategy the first frame must then arrive at the PRIMARY
+//!                  replica (ring order), not merely at some replica.
+//!  * `stmt=<ins|sel|all>`  INSERT (pk, v) / SELECT .. WHERE pk = ? (one key marker) / SELECT without marker (no partition
+//!                  key: token absent - nothing may be judged, the requests must simply succeed).
+//!  * `tab=<1|0>`   0 = the PREPARED response names a keyspace the cluster metadata does not know (`nx.t`): the statement is
+//!                  then not token-aware; the oracle only demands that no request is lost.
 use super::common::*;
 use crate::mockcluster::*;
 use crate::mocknode::{Parsed, ShardMode};
@@ -65,6 +78,29 @@ pub fn generate(rng: &mut Rng, tier: Tier, emit: &mut dyn FnMut(String)) {
             fo,
             rng.below(1 << 32),
             keys
+        ));
+    }
+    // the Session glue: execute vs execute_iter x LWT routing x statement shapes x table known / unknown
+    let n_glue = if tier == Tier::Quick { 16 } else { 120 };
+    for i in 0..n_glue {
+        let nodes = 2 + rng.below(3);
+        let sh = *rng.pick(&[0u64, 2, 3, 4]);
+        let api = if i % 2 == 0 { "i" } else { "u" };
+        let lwt = (i / 2) % 2;
+        let stmt = ["ins", "sel", "ins", "all"][(i / 4) % 4];
+        let tab = if i % 8 == 7 { 0 } else { 1 };
+        emit(format!(
+            "e2e route n={} dcs=1 racks=1 sh={} mix=0 nat=0 msb=12 vn={} st=S{} pref=0 fo=0 seed={} keys={} api={} lwt={} stmt={} tab={}",
+            nodes,
+            sh,
+            *rng.pick(&[1u64, 4]),
+            1 + rng.below(nodes - 1),
+            rng.below(1 << 32),
+            if tier == Tier::Quick { 12 } else { 20 },
+            api,
+            lwt,
+            stmt,
+            tab
         ));
     }
     // node restarts with new sharding parameters (`rs=`): same count / other ignore_msb, other count / same ignore_msb,
@@ -138,6 +174,22 @@ pub fn run(words: &[&str], ctx: &mut Ctx) -> String {
     if pref as usize > shape.dcs || nkeys > 500 {
         return "bad-case".into();
     }
+    let api_iter = match p.str("api") {
+        None | Some("u") => false,
+        Some("i") => true,
+        _ => return "bad-case".into(),
+    };
+    let Some(lwt) = p.num_or("lwt", 0) else { return "bad-case".into() };
+    let Some(tab_known) = p.num_or("tab", 1) else { return "bad-case".into() };
+    let stmt_text: &'static str = match p.str("stmt") {
+        None | Some("ins") => INSERT,
+        Some("sel") => SELECT,
+        Some("all") => SELECT_ALL,
+        _ => return "bad-case".into(),
+    };
+    if lwt > 1 || tab_known > 1 || (lwt == 1 && (pref > 0 || fo > 0)) {
+        return "bad-case".into();
+    }
     let mut topo = shape.topology();
     if mix != 0 && shape.shards >= 2 {
         for (i, n) in topo.nodes.iter_mut().enumerate() {
@@ -177,9 +229,35 @@ pub fn run(words: &[&str], ctx: &mut Ctx) -> String {
     }
     let rt = runtime(1);
     rt.block_on(async {
-        let cluster = MockCluster::start(topo, with_std_prepare(|_| vec![act_void()])).await;
+        // PREPARE: the standard answer, or (tab=0) the same statement on a keyspace the metadata does not know
+        let handler: ClusterHandler = if tab_known == 1 {
+            with_std_prepare(|_| vec![act_void()])
+        } else {
+            Box::new(move |r: &Req| match &r.parsed {
+                Parsed::Prepare { text } => {
+                    let marks = text.matches('?').count();
+                    let mut bind: Vec<(&str, CqlT)> = Vec::new();
+                    if marks >= 1 {
+                        bind.push(("pk", CqlT::Native(T_BLOB)));
+                    }
+                    if marks >= 2 {
+                        bind.push(("v", CqlT::Native(T_INT)));
+                    }
+                    let pk: &[u16] = if marks >= 1 { &[0] } else { &[] };
+                    vec![Act::Respond(crate::mocknode::RESP_RESULT, prepared_body(&stmt_id(text), &Specs::new("nx", "t", &bind), pk, None))]
+                }
+                _ => vec![act_void()],
+            })
+        };
+        let cluster = MockCluster::start(topo, handler).await;
         let pref_dc = (pref > 0).then(|| Shape::dc_name(pref as usize - 1));
         let session = match connect_with(&cluster, nat == 0, |b| match &pref_dc {
+            None if lwt == 1 => {
+                // routed as an LWT: serial consistency (`RoutingInfo::should_route_as_lwt`)
+                use scylla::client::execution_profile::ExecutionProfile;
+                let profile = ExecutionProfile::builder().consistency(scylla::statement::Consistency::Serial).build();
+                b.default_execution_profile_handle(profile.into_handle())
+            }
             None => b,
             Some(dc) if fo == 0 => b.prefer_datacenter(dc.clone()),
             Some(dc) => {
@@ -196,7 +274,7 @@ pub fn run(words: &[&str], ctx: &mut Ctx) -> String {
             Ok(s) => s,
             Err(skip) => return skip,
         };
-        let ps = match session.prepare(INSERT).await {
+        let ps = match session.prepare(stmt_text).await {
             Ok(ps) => ps,
             Err(_) => return "e2e-skip prepare-failed".to_owned(),
         };
@@ -219,10 +297,29 @@ pub fn run(words: &[&str], ctx: &mut Ctx) -> String {
             total_keys += keys.len();
         let start = cluster.mark("requests");
         let start_at = std::time::Instant::now();
+        let marks = stmt_text.matches('?').count();
         for (i, k) in keys.iter().enumerate() {
-            if session.execute_unpaged(&ps, (k.clone(), i as i32)).await.is_err() {
-                failed += 1; // not what is judged here (the first frame of every request is)
+            // (not what is judged here: the first frame of every request is)
+            let ok = match (api_iter, marks) {
+                (false, 2) => session.execute_unpaged(&ps, (k.clone(), i as i32)).await.is_ok(),
+                (false, 1) => session.execute_unpaged(&ps, (k.clone(),)).await.is_ok(),
+                (false, _) => session.execute_unpaged(&ps, ()).await.is_ok(),
+                (true, 2) => session.execute_iter(ps.clone(), (k.clone(), i as i32)).await.is_ok(),
+                (true, 1) => session.execute_iter(ps.clone(), (k.clone(),)).await.is_ok(),
+                (true, _) => session.execute_iter(ps.clone(), ()).await.is_ok(),
+            };
+            if !ok {
+                failed += 1;
             }
+        }
+        if marks == 0 || tab_known == 0 {
+            // no partition key / a table the metadata does not know: not token-aware, nothing of the routing may be
+            // judged - but every request must have been sent
+            let sent = cluster.user_frames().into_iter().filter(|f| f.seq > start && matches!(&f.parsed, Parsed::Execute { .. })).count();
+            if sent < keys.len() {
+                ctx.fail(format!("e2e route: {} token-unaware requests, only {} EXECUTE frames arrived", keys.len(), sent));
+            }
+            continue;
         }
         let frames: Vec<Req> = cluster.user_frames().into_iter().filter(|f| f.seq > start).collect();
         let conns = cluster.conns();
@@ -256,6 +353,13 @@ pub fn run(words: &[&str], ctx: &mut Ctx) -> String {
                 reps.clone()
             };
             if want.is_empty() {
+                continue;
+            }
+            if lwt == 1 && matches!(shape.strat, Strat::Simple(_)) && reps.first() != Some(&f.node) {
+                ctx.fail(format!(
+                    "e2e route: key #{} (token {}) is routed as an LWT and must first go to the primary replica {:?}, it went to node {} (replicas in ring order {:?})",
+                    i, tok, reps.first(), f.node, reps
+                ));
                 continue;
             }
             if !want.contains(&f.node) {
